@@ -22,7 +22,9 @@ def classify(obj, tbl, ft):
     """what kind of object a lookup found (the model's `Obj`)"""
     if isinstance(obj, type):
         return ("cls", str(tbl.of(obj)))
-    if isinstance(obj, (types.FunctionType, types.BuiltinFunctionType)):
+    if isinstance(obj, types.BuiltinFunctionType):
+        return "other"          # never what a trace was recorded for: the tracer only sees Python functions (fix b39e831)
+    if isinstance(obj, types.FunctionType):
         inner = obj.__dict__.get("__wrapped__") if hasattr(obj, "__dict__") else None
         if inner is not None:
             return ("wrapped", str(ft.of(obj)), classify(inner, tbl, ft))
